@@ -3,7 +3,8 @@
 (* behaviour of the decoder automaton, as concrete bytes).                      *)
 EXTENDS WKBDecoder, Json
 CONSTANTS L, LG, Mode,      \* Mode = "codec" | "hostile"
-          WideN, WideB      \* member counts of the wide elements (all kinds / line strings only)
+          WideN, WideB,     \* member counts of the wide elements (all kinds / line strings only)
+          HexLen            \* longest string of the hex-decoder alphabet
 VARIABLE c
 Pats == {<<a, b, d>> : a \in {0, 1}, b \in {0, 1}, d \in {0, 1}}
 CodecCases == [kind : {"enc"}, g : Geoms(L, LG) \cup Wide(WideN, WideB), bo : {0, 1}]
@@ -30,7 +31,12 @@ ForeignCases == LET bs == {ForeignBytes(t, m, bo, good) : t \in {"MultiPoint", "
                     trail == {EncBytes(G("LineString", PathL(n)), bo) \o [i \in 1..(16 * 1030) |-> 0] : n \in {1100}, bo \in {0, 1}}
                 IN {[kind |-> "dec", bytes |-> b, valid |-> FALSE] : b \in bad \cup unk \cup trail}
                    \cup {[kind |-> "dec", bytes |-> <<0>> \o U32(7, 0) \o U32(2, 0) \o b \o EncBytes(G("Point", PtK(4)), 0), valid |-> FALSE] : b \in bad}
-GenInit == IF Mode = "foreign" THEN c \in ForeignCases /\ PrintT(ToJson(c)) /\ Init
+(* short strings over an alphabet of hex digits, letters next to them, the backslash / x of an escaped prefix, blank, NUL and a
+   high byte, handed to the hex decoder: a geometry or an error, never a panic *)
+HexAlphabet == {48, 49, 102, 70, 103, 92, 120, 32, 0, 255}
+HexStrings == UNION {[1..n -> HexAlphabet] : n \in 0..HexLen}
+HexCases == {[kind |-> "hexstr", chars |-> s] : s \in HexStrings}
+GenInit == IF Mode = "foreign" THEN c \in ForeignCases \cup HexCases /\ PrintT(ToJson(c)) /\ Init
            ELSE IF Mode = "codec"
            THEN c \in CodecCases /\ PrintT(ToJson(c)) /\ Init
            ELSE c = 0 /\ Init
